@@ -360,7 +360,6 @@ func runC15(c *Ctx) {
 	c.Rule("R15.9", "E8", "runtime cache: no method writes handler state and can still fail afterwards", 2)
 	c.FailureAtomicity("R15.9", []string{pkgCache}, nil, pkgRRuntime, 4)
 
-
 	// ---------- R15.10 writes bypass the cache
 	c.Rule("R15.10", "E5", "read-modify-write operations of controllers go to the live state: adapters are built on runtime.state, and Create/Update/Modify/Teardown/Destroy/AddFinalizer/RemoveFinalizer of the state adapter never call into the read cache", 10)
 	liveStateRules(c, "R15.10")
